@@ -1610,3 +1610,380 @@ Proof. intros lk d k H. unfold mapping_read. cbn. rewrite H. split; reflexivity.
 
 Theorem defaultdict_refuted_class : forall lk d, PlainDict d <> DefaultDict lk d.
 Proof. intros lk d H. discriminate H. Qed.
+
+(* =========================================================================================== *)
+(* the merge rules in nested statement lists *)
+
+Section Deep.
+  Variables (W : worlds) (r : mrule).
+  Hypothesis Hb : forall x, blind W x.
+
+  Definition dP (s : stmt) : Prop := forall q res, exec_stmt W s q = Some res -> exec_stmt W (merge_s r s) q = Some res.
+
+  Lemma merge_s_If : forall c b1 b2, merge_s r (SIf c b1 b2) = SIf c (merge_deep r b1) (merge_deep r b2).
+  Proof. reflexivity. Qed.
+  Lemma merge_s_For : forall t it body, merge_s r (SFor t it body) = SFor t it (merge_deep r body).
+  Proof. reflexivity. Qed.
+
+  Lemma map_sound : forall b, Forall dP b -> forall q res,
+    exec_block W b q = Some res -> exec_block W (map (merge_s r) b) q = Some res.
+  Proof.
+    induction 1 as [|s b Hs Hbk IH]; intros q res He; [exact He|].
+    cbn [map]. rewrite exec_block_cons in *.
+    destruct (exec_stmt W s q) as [[o q1]|] eqn:E; [|discriminate]. rewrite (Hs _ _ E).
+    destruct o; try exact He. apply IH. exact He.
+  Qed.
+
+  Lemma deep_block : forall b, Forall dP b -> forall q res,
+    exec_block W b q = Some res -> exec_block W (merge_deep r b) q = Some res.
+  Proof. intros b H q res He. apply merge_block_sound; [exact Hb|]. apply map_sound; assumption. Qed.
+
+  Lemma dP_all : forall s, dP s.
+  Proof.
+    induction s using stmt_ind'; intros q res He; try exact He.
+    - rewrite merge_s_If. rewrite exec_SIf in *. destruct (eval_in W c q) as [[cv tr1]|]; [|discriminate].
+      cbn zeta in *. destruct (truthy cv); apply deep_block; assumption.
+    - rewrite merge_s_For. rewrite exec_SFor in *. destruct (eval_in W (isrc_expr it) q) as [[itv tr1]|]; [|discriminate].
+      destruct (src_items it itv) as [items|]; [|discriminate].
+      revert He. generalize (mkSt (st_store q) (fold_left rebind_own (tgt_names t) (read_own (st_own q) [isrc_expr it])) tr1).
+      induction items as [|v items IHi]; intros q0 He; [exact He|].
+      rewrite exec_loop_cons in *. destruct (accept W it v q0) as [[[] q1]|]; [| apply IHi; exact He | discriminate].
+      destruct (sbind t v (st_store q1)) as [s'|]; [|discriminate].
+      destruct (exec_block W body _) as [[o q2]|] eqn:E; [|discriminate].
+      rewrite (deep_block body H _ _ E). destruct o; try exact He; apply IHi; exact He.
+  Qed.
+
+  Theorem merge_deep_sound : forall b q res,
+    exec_block W b q = Some res -> exec_block W (merge_deep r b) q = Some res.
+  Proof. intros b q res. apply deep_block. apply Forall_forall. intros s _. apply dP_all. Qed.
+End Deep.
+
+(* =========================================================================================== *)
+(* fixes.implicit_dict_keys_values_items, for-statement forms: a block that never reads `_` does not
+   depend on the binding of `_` (statement-level frame), hence `for k, _ in d.items()` = `for k in d.keys()`
+   up to the binding of `_` *)
+
+Lemma sset_comm : forall s x y a b, x <> y -> sset (sset s y a) x b = sset (sset s x b) y a.
+Proof.
+  induction s as [|[z w] tl IH]; intros x y a b Hxy; cbn [sset];
+    repeat (match goal with
+            | |- context [Nat.ltb ?a ?b] => destruct (Nat.ltb a b) eqn:?
+            | |- context [Nat.eqb ?a ?b] => destruct (Nat.eqb a b) eqn:?
+            end; cbn [sset]);
+    repeat match goal with
+           | H : Nat.ltb _ _ = true |- _ => apply Nat.ltb_lt in H
+           | H : Nat.ltb _ _ = false |- _ => apply Nat.ltb_ge in H
+           | H : Nat.eqb _ _ = true |- _ => apply Nat.eqb_eq in H
+           | H : Nat.eqb _ _ = false |- _ => apply Nat.eqb_neq in H
+           end; try lia; try reflexivity; try (subst; lia).
+  rewrite IH by assumption. reflexivity.
+Qed.
+
+Notation U := underscore.
+
+Definition sR (s1 s2 : store) : Prop := forall v, sset s1 U v = sset s2 U v.
+Definition oR (o1 o2 : option nat) : Prop := rebind_own o1 U = rebind_own o2 U.
+
+Lemma xequiv_split : forall q1 q2, xequiv U q1 q2 <->
+  sR (st_store q1) (st_store q2) /\ oR (st_own q1) (st_own q2) /\ st_trace q1 = st_trace q2.
+Proof. intros. reflexivity. Qed.
+
+Lemma sR_refl : forall s, sR s s.
+Proof. intros s v. reflexivity. Qed.
+
+Lemma sR_sset : forall s1 s2 y v, sR s1 s2 -> sR (sset s1 y v) (sset s2 y v).
+Proof.
+  intros s1 s2 y v H u. destruct (Nat.eq_dec U y) as [<-|Hy].
+  - rewrite !sset_sset_same. apply H.
+  - rewrite !(sset_comm _ U y) by assumption. rewrite H. reflexivity.
+Qed.
+
+Lemma sR_get : forall s1 s2 y, sR s1 s2 -> y <> U -> sget s1 y = sget s2 y.
+Proof.
+  intros s1 s2 y H Hy. rewrite <- (sget_sset_other s1 U y VNone) by congruence.
+  rewrite <- (sget_sset_other s2 U y VNone) by congruence. rewrite H. reflexivity.
+Qed.
+
+Lemma sR_agree : forall s1 s2, sR s1 s2 -> agree_off (sget s1) (sget s2).
+Proof. intros s1 s2 H y Hy. apply sR_get; assumption. Qed.
+
+Lemma sR_bind_names : forall xs vs s1 s2, sR s1 s2 ->
+  match sbind_names xs vs s1, sbind_names xs vs s2 with
+  | Some a, Some b => sR a b
+  | None, None => True
+  | _, _ => False
+  end.
+Proof.
+  induction xs as [|x xs IH]; intros [|v vs] s1 s2 H; cbn; try exact I; [assumption|].
+  apply IH. apply sR_sset. assumption.
+Qed.
+
+Lemma sR_bind : forall t v s1 s2, sR s1 s2 ->
+  match sbind t v s1, sbind t v s2 with
+  | Some a, Some b => sR a b
+  | None, None => True
+  | _, _ => False
+  end.
+Proof.
+  intros [x|xs] v s1 s2 H; cbn.
+  - apply sR_sset. assumption.
+  - destruct (items_of v); [apply sR_bind_names; assumption | exact I].
+Qed.
+
+Ltac oR_tac :=
+  unfold oR, rebind_own, read_own, is_owned in *;
+  repeat match goal with
+         | o : option nat |- _ => destruct o
+         end;
+  repeat match goal with
+         | |- context [if ?c then _ else _] => destruct c eqn:?
+         | H : context [if ?c then _ else _] |- _ => destruct c eqn:?
+         end;
+  repeat match goal with
+         | H : Nat.eqb _ _ = true |- _ => apply Nat.eqb_eq in H
+         | H : Nat.eqb _ _ = false |- _ => apply Nat.eqb_neq in H
+         end;
+  subst; try congruence; try reflexivity.
+
+Lemma oR_refl : forall o, oR o o.
+Proof. intros. reflexivity. Qed.
+
+Lemma oR_read : forall o1 o2 es, oR o1 o2 -> oR (read_own o1 es) (read_own o2 es).
+Proof. intros o1 o2 es H. oR_tac. Qed.
+
+Lemma oR_rebind : forall o1 o2 y, oR o1 o2 -> oR (rebind_own o1 y) (rebind_own o2 y).
+Proof. intros o1 o2 y H. oR_tac. Qed.
+
+Lemma oR_fold : forall ys o1 o2, oR o1 o2 -> oR (fold_left rebind_own ys o1) (fold_left rebind_own ys o2).
+Proof. induction ys as [|y ys IH]; intros o1 o2 H; [assumption|]. cbn. apply IH, oR_rebind, H. Qed.
+
+Lemma oR_owned : forall o1 o2 x, oR o1 o2 -> x <> U -> is_owned o1 x = is_owned o2 x.
+Proof.
+  intros [a|] [b|] x H Hx; unfold oR, rebind_own, is_owned in *.
+  - destruct (Nat.eqb a U) eqn:Ea, (Nat.eqb b U) eqn:Eb; try discriminate.
+    + apply Nat.eqb_eq in Ea, Eb. subst. reflexivity.
+    + injection H as ->. reflexivity.
+  - destruct (Nat.eqb a U) eqn:Ea; [|discriminate]. apply Nat.eqb_eq in Ea. subst a. apply Nat.eqb_neq. exact Hx.
+  - destruct (Nat.eqb b U) eqn:Eb; [|discriminate]. apply Nat.eqb_eq in Eb. subst b. symmetry. apply Nat.eqb_neq. exact Hx.
+  - reflexivity.
+Qed.
+
+Lemma oR_assign : forall o1 o2 (b : bool) y, oR o1 o2 ->
+  oR (if b then Some y else rebind_own o1 y) (if b then Some y else rebind_own o2 y).
+Proof. intros o1 o2 [] y H; [reflexivity | apply oR_rebind, H]. Qed.
+
+Lemma oR_rebind_U : forall o, oR (rebind_own o U) o.
+Proof. intros o. unfold oR. apply rebind_idem. Qed.
+
+Section UsFrame.
+  Variable W : worlds.
+  Hypothesis HbW : blind W U.
+
+  Lemma W_eq : forall s1 s2, sR s1 s2 -> W s1 = W s2.
+  Proof. intros s1 s2 H. rewrite <- (HbW s1 VNone), <- (HbW s2 VNone), H. reflexivity. Qed.
+
+  Lemma eval_eq : forall e s1 s2 tr, reads_us e = false -> sR s1 s2 ->
+    eval (W s1) e (sget s1) tr = eval (W s2) e (sget s2) tr.
+  Proof. intros e s1 s2 tr He H. rewrite (W_eq _ _ H). apply frame; [assumption | apply sR_agree, H]. Qed.
+
+  Lemma elts_eq : forall l s1 s2 tr, existsb reads_us l = false -> sR s1 s2 ->
+    eval_elts (eval (W s1)) (sget s1) l tr = eval_elts (eval (W s2)) (sget s2) l tr.
+  Proof.
+    intros l s1 s2 tr Hl H. rewrite (W_eq _ _ H). apply elts_frame; [|assumption | apply sR_agree, H].
+    apply Forall_forall. intros e _. apply frame_all.
+  Qed.
+
+  Definition fP (s : stmt) : Prop :=
+    reads_us_s s = false -> forall q1 q2, xequiv U q1 q2 -> res_rel U (exec_stmt W s q1) (exec_stmt W s q2).
+  Definition fB (b : list stmt) : Prop :=
+    reads_us_b b = false -> forall q1 q2, xequiv U q1 q2 -> res_rel U (exec_block W b q1) (exec_block W b q2).
+
+  Lemma reads_us_If : forall c b1 b2, reads_us_s (SIf c b1 b2) = reads_us c || reads_us_b b1 || reads_us_b b2.
+  Proof. reflexivity. Qed.
+  Lemma reads_us_For : forall t it body, reads_us_s (SFor t it body) = reads_us (isrc_expr it) || reads_us_b body.
+  Proof. reflexivity. Qed.
+
+  Lemma fB_of_Forall : forall b, Forall fP b -> fB b.
+  Proof.
+    induction 1 as [|s b Hs Hb IH]; intros Hr q1 q2 Hq.
+    - cbn. split; [reflexivity | exact Hq].
+    - cbn in Hr. apply orb_false_iff in Hr as [Hr1 Hr2]. rewrite !exec_block_cons.
+      specialize (Hs Hr1 q1 q2 Hq).
+      destruct (exec_stmt W s q1) as [[o1 q1']|], (exec_stmt W s q2) as [[o2 q2']|]; cbn in Hs; try contradiction; [|exact I].
+      destruct Hs as [<- Hq']. destruct o1; try (split; [reflexivity | exact Hq']). apply IH; assumption.
+  Qed.
+
+  Lemma accept_rel : forall it v q1 q2, xequiv U q1 q2 ->
+    match accept W it v q1, accept W it v q2 with
+    | Some (b1, q1'), Some (b2, q2') => b1 = b2 /\ xequiv U q1' q2'
+    | None, None => True
+    | _, _ => False
+    end.
+  Proof.
+    intros it v q1 q2 Hq. pose proof Hq as [Hs [Ho Ht]].
+    destruct it; cbn [accept]; try (split; [reflexivity | exact Hq]).
+    destruct f as [g|]; [|split; [reflexivity | exact Hq]].
+    rewrite (W_eq _ _ Hs), Ht. destruct (call_or (W (st_store q2)) (st_trace q2) g [v]); [|exact I].
+    split; [reflexivity|]. (split; [|split]); cbn [st_store st_own st_trace]; try assumption. reflexivity.
+  Qed.
+
+  Lemma loop_rel : forall t it body, fB body -> reads_us_b body = false ->
+    forall items q1 q2, xequiv U q1 q2 ->
+      res_rel U (exec_loop W t it body items q1) (exec_loop W t it body items q2).
+  Proof.
+    intros t it body Hb Hr. induction items as [|v items IH]; intros q1 q2 Hq.
+    - cbn. split; [reflexivity | exact Hq].
+    - rewrite !exec_loop_cons. pose proof (accept_rel it v q1 q2 Hq) as Ha.
+      destruct (accept W it v q1) as [[b1 q1']|], (accept W it v q2) as [[b2 q2']|]; try contradiction; [|exact I].
+      destruct Ha as [<- Hq']. destruct b1; [|apply IH; exact Hq'].
+      destruct Hq' as [Hs [Ho Ht]]. pose proof (sR_bind t v _ _ Hs) as Hbd.
+      destruct (sbind t v (st_store q1')) as [s1'|], (sbind t v (st_store q2')) as [s2'|]; try contradiction; [|exact I].
+      assert (Hq2 : xequiv U (mkSt s1' (fold_left rebind_own (tgt_names t) (st_own q1')) (st_trace q1'))
+                              (mkSt s2' (fold_left rebind_own (tgt_names t) (st_own q2')) (st_trace q2'))).
+      { (split; [|split]); cbn [st_store st_own st_trace]; [exact Hbd | apply oR_fold, Ho | exact Ht]. }
+      specialize (Hb Hr _ _ Hq2).
+      destruct (exec_block W body _) as [[o1 q3]|], (exec_block W body _) as [[o2 q4]|]; cbn in Hb; try contradiction; [|exact I].
+      destruct Hb as [<- Hq3]. destruct o1; try (apply IH; exact Hq3); split; try reflexivity; exact Hq3.
+  Qed.
+
+  Lemma fP_all : forall s, fP s.
+  Proof.
+    induction s using stmt_ind'; intros Hr q1 q2 Hq; pose proof Hq as [Hs [Ho Ht]];
+      destruct q1 as [s1 o1 tr1], q2 as [s2 o2 tr2]; cbn [st_store st_own st_trace] in *; subst tr2.
+    - (* assign *)
+      cbn in Hr. cbn [exec_stmt]. unfold eval_in. cbn [st_store st_own st_trace].
+      rewrite (eval_eq _ _ _ _ Hr Hs). destruct (eval (W s2) e (sget s2) tr1) as [[v t]|]; [|exact I].
+      split; [reflexivity|]. (split; [|split]); cbn [st_store st_own st_trace].
+      + apply sR_sset; exact Hs.
+      + apply oR_assign, oR_read, Ho.
+      + reflexivity.
+    - (* setitem *)
+      cbn in Hr. apply orb_false_iff in Hr as [Hr Hv]. apply orb_false_iff in Hr as [Hx Hk].
+      apply Nat.eqb_neq in Hx. cbn [exec_stmt]. unfold eval_in. cbn [st_store st_own st_trace].
+      rewrite (oR_owned _ _ x Ho Hx). destruct (is_owned o2 x); [|exact I].
+      rewrite (eval_eq _ _ _ _ Hv Hs). destruct (eval (W s2) v (sget s2) tr1) as [[vv t1]|]; [|exact I].
+      rewrite (eval_eq _ _ _ _ Hk Hs). destruct (eval (W s2) k (sget s2) t1) as [[kv t2]|]; [|exact I].
+      rewrite (sR_get _ _ x Hs Hx). destruct (sget s2 x) as [[]|]; try exact I.
+      destruct (hashable kv && (negb (mentions x k || mentions x v) || hashable vv)); [|exact I].
+      split; [reflexivity|]. (split; [|split]); cbn [st_store st_own st_trace]; [apply sR_sset; exact Hs | exact Ho | reflexivity].
+    - (* method *)
+      cbn in Hr. apply orb_false_iff in Hr as [Hx Ha]. apply Nat.eqb_neq in Hx.
+      cbn [exec_stmt]. cbn [st_store st_own st_trace].
+      rewrite (oR_owned _ _ x Ho Hx). destruct (is_owned o2 x); [|exact I].
+      rewrite (sR_get _ _ x Hs Hx). destruct (sget s2 x) as [recv|]; [|exact I].
+      rewrite (elts_eq _ _ _ _ Ha Hs). destruct (eval_elts (eval (W s2)) (sget s2) args tr1) as [[vs t1]|]; [|exact I].
+      destruct (negb (existsb (mentions x) args) || forallb hashable vs); [|exact I].
+      destruct (apply_meth m recv vs); [|exact I].
+      split; [reflexivity|]. (split; [|split]); cbn [st_store st_own st_trace]; [apply sR_sset; exact Hs | exact Ho | reflexivity].
+    - (* expression statement *)
+      cbn in Hr. cbn [exec_stmt]. unfold eval_in. cbn [st_store st_own st_trace].
+      rewrite (eval_eq _ _ _ _ Hr Hs). destruct (eval (W s2) e (sget s2) tr1) as [[v t]|]; [|exact I].
+      split; [reflexivity|]. (split; [|split]); cbn [st_store st_own st_trace]; [exact Hs | apply oR_read, Ho | reflexivity].
+    - (* return *)
+      cbn in Hr. cbn [exec_stmt]. unfold eval_in. cbn [st_store st_own st_trace].
+      rewrite (eval_eq _ _ _ _ Hr Hs). destruct (eval (W s2) e (sget s2) tr1) as [[v t]|]; [|exact I].
+      split; [reflexivity|]. (split; [|split]); cbn [st_store st_own st_trace]; [exact Hs | apply oR_read, Ho | reflexivity].
+    - split; [reflexivity | exact Hq].
+    - split; [reflexivity | exact Hq].
+    - split; [reflexivity | exact Hq].
+    - (* if *)
+      rewrite reads_us_If in Hr. apply orb_false_iff in Hr as [Hr H2]. apply orb_false_iff in Hr as [Hc H1].
+      rewrite !exec_SIf. unfold eval_in. cbn [st_store st_own st_trace].
+      rewrite (eval_eq _ _ _ _ Hc Hs). destruct (eval (W s2) c (sget s2) tr1) as [[cv t]|]; [|exact I].
+      cbn zeta.
+      assert (Hq' : xequiv U (mkSt s1 (read_own o1 [c]) t) (mkSt s2 (read_own o2 [c]) t)).
+      { (split; [|split]); cbn [st_store st_own st_trace]; [exact Hs | apply oR_read, Ho | reflexivity]. }
+      destruct (truthy cv); [apply (fB_of_Forall _ H H1) | apply (fB_of_Forall _ H0 H2)]; exact Hq'.
+    - (* for *)
+      rewrite reads_us_For in Hr. apply orb_false_iff in Hr as [Hi Hb].
+      rewrite !exec_SFor. unfold eval_in. cbn [st_store st_own st_trace].
+      rewrite (eval_eq _ _ _ _ Hi Hs). destruct (eval (W s2) (isrc_expr it) (sget s2) tr1) as [[itv t1]|]; [|exact I].
+      destruct (src_items it itv) as [items|]; [|exact I].
+      apply loop_rel; [apply fB_of_Forall; assumption | assumption |].
+      (split; [|split]); cbn [st_store st_own st_trace]; [exact Hs | apply oR_fold, oR_read, Ho | reflexivity].
+  Qed.
+
+  Lemma fB_all : forall b, fB b.
+  Proof. intros b. apply fB_of_Forall. apply Forall_forall. intros s _. apply fP_all. Qed.
+
+  (* for k, _ in e.items(): body   against   for k in e.keys(): body  (and _, v / values) *)
+  Lemma items_loop : forall (kind : bool) y body e1 e2 d q1 q2,
+    reads_us_b body = false -> xequiv U q1 q2 ->
+    res_rel U
+      (exec_loop W (TTup (if kind then [y; U] else [U; y])) (IItems e1) body
+                 (map (fun kv => VTuple [fst kv; snd kv]) d) q1)
+      (exec_loop W (TName y) (if kind then IKeys e2 else IValues e2) body
+                 (map (if kind then fst else snd) d) q2).
+  Proof.
+    intros kind y body e1 e2 d q1 q2 Hr. revert q1 q2. induction d as [|[kk vv] d IH]; intros q1 q2 Hq.
+    - cbn. split; [reflexivity | exact Hq].
+    - cbn [map fst snd]. rewrite !exec_loop_cons.
+      assert (Hacc1 : accept W (IItems e1) (VTuple [kk; vv]) q1 = Some (true, q1)) by reflexivity.
+      assert (Hacc2 : forall v, accept W (if kind then IKeys e2 else IValues e2) v q2 = Some (true, q2))
+        by (destruct kind; reflexivity).
+      rewrite Hacc1, Hacc2. destruct Hq as [Hs [Ho Ht]].
+      assert (Hq2 : xequiv U
+                (mkSt (if kind then sset (sset (st_store q1) y kk) U vv else sset (sset (st_store q1) U kk) y vv)
+                      (fold_left rebind_own (tgt_names (TTup (if kind then [y; U] else [U; y]))) (st_own q1)) (st_trace q1))
+                (mkSt (sset (st_store q2) y (if kind then kk else vv))
+                      (fold_left rebind_own (tgt_names (TName y)) (st_own q2)) (st_trace q2))).
+      { (split; [|split]); cbn [st_store st_own st_trace]; [| |exact Ht].
+        - intros u. destruct kind.
+          + rewrite sset_sset_same. apply sR_sset; exact Hs.
+          + pose proof (sR_sset _ _ y vv (sR_sset _ _ U kk Hs)) as H1. rewrite H1.
+            apply sR_sset. intros w. rewrite sset_sset_same. reflexivity.
+        - destruct kind; cbn [tgt_names fold_left].
+          + eapply eq_trans; [apply oR_rebind_U|]. apply oR_rebind, Ho.
+          + apply oR_rebind. eapply eq_trans; [apply oR_rebind_U | exact Ho]. }
+      assert (Hb1 : sbind (TTup (if kind then [y; U] else [U; y])) (VTuple [kk; vv]) (st_store q1) =
+                    Some (if kind then sset (sset (st_store q1) y kk) U vv else sset (sset (st_store q1) U kk) y vv))
+        by (destruct kind; reflexivity).
+      rewrite Hb1. cbn [sbind]. destruct kind.
+      + pose proof (fB_all body Hr _ _ Hq2) as Hb.
+        destruct (exec_block W body _) as [[o1 q3]|], (exec_block W body _) as [[o2 q4]|]; cbn in Hb; try contradiction; [|exact I].
+        destruct Hb as [<- Hq3]. destruct o1; try (apply IH; exact Hq3); split; try reflexivity; exact Hq3.
+      + pose proof (fB_all body Hr _ _ Hq2) as Hb.
+        destruct (exec_block W body _) as [[o1 q3]|], (exec_block W body _) as [[o2 q4]|]; cbn in Hb; try contradiction; [|exact I].
+        destruct Hb as [<- Hq3]. destruct o1; try (apply IH; exact Hq3); split; try reflexivity; exact Hq3.
+  Qed.
+End UsFrame.
+
+Theorem items_sound : forall W s s' q, blind W U -> rw_items false s = Some s' ->
+  match s with SFor _ _ body => reads_us_b body = false | _ => True end ->
+  res_rel U (exec_stmt W s q) (exec_stmt W s' q).
+Proof.
+  intros W s s' q Hb H Hr. destruct s; try discriminate. destruct t as [|[|k [|u [|]]]]; try discriminate.
+  destruct it; try discriminate. cbn [rw_items] in H.
+  assert (Hcore : forall (kind : bool) y,
+            (if kind then [k; u] = [y; U] else [k; u] = [U; y]) ->
+            res_rel U (exec_stmt W (SFor (TTup [k; u]) (IItems e) body) q)
+                      (exec_stmt W (SFor (TName y) (if kind then IKeys e else IValues e) body) q)).
+  { intros kind y Hk. rewrite !exec_SFor.
+    assert (He : isrc_expr (if kind then IKeys e else IValues e) = e) by (destruct kind; reflexivity).
+    rewrite He. cbn [isrc_expr]. destruct (eval_in W e q) as [[itv tr1]|]; [|exact I].
+    assert (Hsrc : src_items (if kind then IKeys e else IValues e) itv =
+                   match itv with VDict d => Some (map (if kind then fst else snd) d) | _ => None end)
+      by (destruct kind; reflexivity).
+    rewrite Hsrc. cbn [src_items]. destruct itv; try exact I.
+    assert (Ht : TTup [k; u] = TTup (if kind then [y; U] else [U; y])) by (destruct kind; rewrite Hk; reflexivity).
+    rewrite Ht. apply items_loop; [assumption | assumption |].
+    split; [|split]; cbn [st_store st_own st_trace]; [apply sR_refl | | reflexivity].
+    destruct kind; cbn [tgt_names fold_left].
+    - apply oR_rebind_U.
+    - apply oR_rebind, oR_rebind_U. }
+  destruct (Nat.eqb u U) eqn:Eu.
+  - apply Nat.eqb_eq in Eu. subst u. injection H as <-. apply (Hcore true k). reflexivity.
+  - destruct (Nat.eqb k U) eqn:Ek; [|discriminate]. apply Nat.eqb_eq in Ek. subst k. injection H as <-.
+    apply (Hcore false u). reflexivity.
+Qed.
+
+(* full equality fails: `_` is no longer bound by the loop; with `_` read afterwards the rule (before the
+   repair F02coll-11) changed the program *)
+Theorem items_refuted_underscore :
+  exists s s' q, rw_items false s = Some s' /\ exec_stmt (fun _ => test_world) s q <> exec_stmt (fun _ => test_world) s' q /\
+                 exec_stmt (fun _ => test_world) s q <> None.
+Proof.
+  exists (SFor (TTup [1%nat; U]) (IItems (EName 2)) [SPass]). eexists.
+  exists (mkSt [(2%nat, VDict [(VInt 1, VInt 2)])] None []).
+  split; [reflexivity|]. split; vm_compute; discriminate.
+Qed.
